@@ -244,7 +244,7 @@ def main(tier, replay_path):
     run.bounds = {'input_bytes_K': K, 'end_of_input': 'runs that end with end() are decided by C17 (same engine)', 'path_budget': 4000 if tier == 'quick' else 20000,
                   'programs': 'corpus (examples, *.ok tests, verif corpus; macros expanded textually first) + seeded generator'}
     run.assumptions = ['slack exactly as DESIGN §4 C01: pending events at end of input / when an error strikes may be missing on the machine side (prefix); a trailing byte nothing accepts may be FAIL on the machine side',
-                       '$last compared only through the values it produces', 'foreach do-actions run before the per-byte append (generator keeps the order unobservable)', 'arithmetic UB and reads beyond the string length excluded']
+                       '$last compared only through the values it produces', 'foreach do-actions run before the per-byte append (generator keeps the order unobservable)', 'arithmetic UB and reads beyond the string length excluded', 'runs in which a computed-character append (s += [expr]) runs out of space are excluded: which byte the handler then sees depends on whether the action is scheduled with the byte before or after it, which the language leaves open (the C-level behaviour of such overflows is compared by C06/C02/C10)']
     jobs = []
     for label, src in l3check.programs(tier):
         big = len(src) > 2500
